@@ -55,7 +55,8 @@ def check(run):
                    "" if ok else "_from%s can return something that is not an instance of cls (a plain dict when datify gives up)" % fmt)
             shapes.setdefault(fmt, []).append((lib_of(dumps[0])[0] if dumps else None, lib_of(loads[0])[0] if loads else None,
                                                arg in ("self._asdict()", "dictify(self)", "asdict(self)"), bool(dat), bool(guard),
-                                               sorted(k.arg for k in dumps[0].keywords) if dumps else None))
+                                               sorted(k.arg for k in dumps[0].keywords) if dumps else None,
+                                               sorted("%s=%s" % (k.arg, unparse(k.value)) for k in loads[0].keywords) if loads else None))
     for fmt, pair in sorted(shapes.items()):
         ok = len(pair) == 2 and pair[0] == pair[1]
         run.ob("C28.R1", "%s:RawDom~IceRawDom:%s" % (DM, fmt), ok, "", "" if ok else "RawDom and IceRawDom implement the %s conversion differently" % fmt)
@@ -82,5 +83,6 @@ MUTANTS = [
     Mutant("fromjson-no-instance-check", DM, "IceRawDom._fromjson", "        if not isinstance(dom, cls):\n            raise ValueError(\"Invalid dict={d} to datify as dataclass={cls}.\")\n", "", {"C28.R2"}, canary=True),
     Mutant("frommgpk-flat", DM, "RawDom._frommgpk", "dom = datify(cls, d)", "dom = cls(**d)", {"C28.R2"}),
     Mutant("datify-not-recursive", DM, "datify", "cls(**{f: datify(fieldtypes[f], d[f]) for f in d})", "cls(**{f: d[f] for f in d})", {"C28.R3"}),
+    Mutant("ice-mgpk-tuples", DM, "IceRawDom._frommgpk", "d = msgpack.loads(s)", "d = msgpack.loads(s, use_list=False)", {"C28.R1"}),
     Mutant("silent-dictify-self", DM, "RawDom._ascbor", "cbor.dumps(self._asdict())", "cbor.dumps(dictify(self))", silent=True),
 ]
